@@ -137,6 +137,48 @@ def streams(seed, tier):
     out.append(Stream("add-random", "run", "run.check", cases,
                       "LIST.ADD: random id vectors up to length 14 with repeated and invalid ids, source stacks of depth 0..3 (a quarter of them empty), nested records on CODE"))
 
+    # 2b. long records: id vectors of 99 .. 300 ids (around and above max_points_in_program = 100), source stacks deep
+    #     enough to serve them (and one / a few items short, so that the record ends exactly below / at / above 100 items)
+    cases = []
+    lit = {1: ("bool", lambda: rng.random() < 0.5), 5: ("float", lambda: rand_f32(rng)), 9: ("int", lambda: rand_i32(rng))}
+    lengths = [99, 100, 101, 150, 300]
+    k = 0
+    for n in lengths:
+        for ids in ([1], [5], [9], [1, 5, 9]):
+            for depth in (n + 5, n, n - 2):
+                for name in ("LIST.ADD", "LIST.SET"):
+                    v = [rng.choice(ids) for _ in range(n)]
+                    st = dict(code=code_stack(rng, rng.randrange(0, 3)), exec=[N("rest")])
+                    for sid in ids:
+                        key, draw = lit[sid]
+                        st[key] = [draw() for _ in range(depth if len(ids) == 1 else v.count(sid) + depth - n)]
+                    st["ivec"] = [v, [9, 9]]
+                    if name == "LIST.SET":
+                        st["int"] = [rng.randrange(-1, 3)] + list(st.get("int", [7]))
+                    cases.append(one_step(k % 2, name, st)); k += 1
+    # CODE / EXEC ids: the collected items are themselves records, the new record has many more points than items
+    for n in (12, 25, 34, 50, 99, 100, 101):
+        for name in ("LIST.ADD", "LIST.SET"):
+            for rep in range(3 if big else 2):
+                v = [rng.choice([3, 3, 3, 4, 9]) for _ in range(n)]
+                st = dict(code=[record(rng, depth=1, maxlen=8) for _ in range(n + 2)],
+                          exec=[literal_record(rng) for _ in range(n // 4 + 2)], int=[rng.randrange(-1, 3)] + [rand_i32(rng) for _ in range(n // 3)])
+                st["ivec"] = [v]
+                cases.append(one_step(k % 2, name, st)); k += 1
+    # lengths drawn around the boundary, mixed ids over all twelve stacks
+    for _ in range(400 if big else 60):
+        n = rng.choice([rng.randrange(90, 112), rng.randrange(95, 106), rng.randrange(112, 400)])
+        ids = rng.sample([1, 2, 5, 6, 9, 10, 11], rng.randrange(1, 4))
+        v = [rng.choice(ids) for _ in range(n)]
+        d = lambda: rng.choice([n + 3, n, n // len(ids) + 10])
+        st = dict(bool=[rng.random() < 0.5 for _ in range(d())], float=[rand_f32(rng) for _ in range(d())], int=[rng.randrange(0, 3)] + [rand_i32(rng) for _ in range(d())],
+                  name=[rng.choice(NAMES) for _ in range(d())], bvec=[[rng.random() < 0.5] for _ in range(d())], fvec=[[rand_f32(rng)] for _ in range(d())],
+                  ivec=[v] + [[rng.randrange(0, 13)] for _ in range(d())], code=code_stack(rng, rng.randrange(0, 3)))
+        cases.append(one_step(k % 2, rng.choice(["LIST.ADD", "LIST.ADD", "LIST.SET"]), st)); k += 1
+    out.append(Stream("long-records", "run", "run.check", cases,
+                      "LIST.ADD and LIST.SET with id vectors of 99 / 100 / 101 / 150 / 300 ids (and random lengths 90..400) over BOOLEAN / FLOAT / INTEGER (single and mixed) and the vector / NAME stacks, "
+                      "source stacks holding n+5 / n / n-2 items; 12..101 CODE / EXEC ids whose items are nested records: records of about and above max_points_in_program (100) points"))
+
     # 3. addresses: REMOVE / GET / SET / BVAL / IVAL / FVAL for CODE depth 0..4 and every boundary position
     cases = []
     for depth in range(0, 5):
